@@ -34,6 +34,7 @@
 struct verif_heap_ghost {
     int lvl;                 /* see above */
     unsigned kid_calls;      /* vm_release calls delivered to the child at the ghost index (lvl 1 calls) */
+    unsigned helper_calls;   /* times the kind's release_* helper ran on the object under proof */
 };
 extern struct verif_heap_ghost __verif_h;
 /* ghosts that are never assigned: arbitrary (forall-generalisation), or bound by a requires clause */
@@ -65,65 +66,80 @@ __CPROVER_assigns(IS_RC(v): HDR(v)->ref_count)
 __CPROVER_ensures(IS_RC(v) ==> HDR(v)->ref_count == __verif_rc0 + 1u);
 
 /* =====================================================================================================
- * vm_release
- * ===================================================================================================== */
-/* the element store / element count / child of the object under proof, per kind */
+ * vm_release and its release_* helpers
+ * =====================================================================================================
+ * Proof structure (per kind K of the object under proof; CBMC 6.11 refuses to check AND replace one function, and a
+ * replaced call with two frees targets makes its symbolic execution hang, so the recursion is cut at the helper):
+ *   C14.heap.release.K    vm_release against REL_TOP, the call of release_K replaced by the helper's contract;
+ *   C14.heap.helper.K     release_K against its contract, the recursive vm_release calls in its loop replaced by the
+ *                         CHILD VIEW of vm_release's contract (header-level clauses, literally the same macro text),
+ *                         loop contract from the sidecar.
+ * Which view the forward declaration of vm_release carries is a compile-time choice (-DHEAP_VIEW_CHILD), as in
+ * contracts/verifier_contracts.h. */
+/* O_* : the object under proof through a typed pointer p */
 #if VERIF_HKIND == 7        /* TAG_ARRAY */
+#define REL_T VmArray
+#define REL_FN release_array
+#define REL_PN a
 #define REL_OBJ_SIZE sizeof(VmArray)
-#define REL_COUNT(v) ((v).as.array->length)
-#define REL_STORE(v) ((v).as.array->elements)
-#define REL_STORE_N(v) ((v).as.array->capacity)
-#define REL_SHAPE(v) ((v).as.array->capacity >= 1 && (v).as.array->capacity <= HEAP_MAX_ELEMS && (v).as.array->length <= (v).as.array->capacity)
+#define O_COUNT(p) ((p)->length)
+#define O_STORE(p) ((p)->elements)
+#define O_STORE_N(p) ((p)->capacity)
+#define O_SHAPE(p) ((p)->capacity >= 1 && (p)->capacity <= HEAP_MAX_ELEMS && (p)->length <= (p)->capacity)
 #define REL_HAS_STORE 1
 #elif VERIF_HKIND == 8      /* TAG_STRUCT */
+#define REL_T VmStruct
+#define REL_FN release_struct
+#define REL_PN s
 #define REL_OBJ_SIZE sizeof(VmStruct)
-#define REL_COUNT(v) ((v).as.sval->field_count)
-#define REL_STORE(v) ((v).as.sval->fields)
-#define REL_STORE_N(v) ((v).as.sval->field_count)
-#define REL_SHAPE(v) ((v).as.sval->field_count <= HEAP_MAX_ELEMS && (v).as.sval->field_names == NULL)
+#define O_COUNT(p) ((p)->field_count)
+#define O_STORE(p) ((p)->fields)
+#define O_STORE_N(p) ((p)->field_count)
+#define O_SHAPE(p) ((p)->field_count <= HEAP_MAX_ELEMS && (p)->field_names == NULL)    /* nothing in the VM ever sets field_names */
 #define REL_HAS_STORE 1
 #elif VERIF_HKIND == 10     /* TAG_UNION */
+#define REL_T VmUnion
+#define REL_FN release_union
+#define REL_PN u
 #define REL_OBJ_SIZE sizeof(VmUnion)
-#define REL_COUNT(v) ((uint32_t)(v).as.uval->field_count)
-#define REL_STORE(v) ((v).as.uval->fields)
-#define REL_STORE_N(v) ((uint32_t)(v).as.uval->field_count)
-#define REL_SHAPE(v) 1
+#define O_COUNT(p) ((uint32_t)(p)->field_count)
+#define O_STORE(p) ((p)->fields)
+#define O_STORE_N(p) ((uint32_t)(p)->field_count)
+#define O_SHAPE(p) 1
 #define REL_HAS_STORE 1
 #elif VERIF_HKIND == 12     /* TAG_TUPLE */
+#define REL_T VmTuple
+#define REL_FN release_tuple
+#define REL_PN t
 #define REL_OBJ_SIZE (sizeof(VmTuple) + (size_t)__verif_hn * sizeof(NanoValue))
-#define REL_COUNT(v) ((v).as.tuple->count)
-#define REL_STORE(v) ((v).as.tuple->elements)
-#define REL_SHAPE(v) ((v).as.tuple->count == __verif_hn && __verif_hn <= HEAP_MAX_ELEMS)
+#define O_COUNT(p) ((p)->count)
+#define O_STORE(p) ((p)->elements)
+#define O_SHAPE(p) ((p)->count == __verif_hn && __verif_hn <= HEAP_MAX_ELEMS)
 #define REL_HAS_STORE 0
 #elif VERIF_HKIND == 11     /* TAG_FUNCTION: closure */
+#define REL_T VmClosure
+#define REL_FN release_closure
+#define REL_PN c
 #define REL_OBJ_SIZE (sizeof(VmClosure) + (size_t)__verif_hn * sizeof(NanoValue))
-#define REL_COUNT(v) ((uint32_t)(v).as.closure->capture_count)
-#define REL_STORE(v) ((v).as.closure->captures)
-#define REL_SHAPE(v) ((v).as.closure->capture_count == __verif_hn)
+#define O_COUNT(p) ((uint32_t)(p)->capture_count)
+#define O_STORE(p) ((p)->captures)
+#define O_SHAPE(p) ((p)->capture_count == __verif_hn)
 #define REL_HAS_STORE 0
 #elif VERIF_HKIND == 5      /* TAG_STRING */
 #define REL_OBJ_SIZE (sizeof(VmString) + 1)
-#define REL_SHAPE(v) 1
 #define REL_HAS_STORE 0
-#else                       /* scalar / NULL */
+#else                       /* scalar */
 #define REL_OBJ_SIZE sizeof(VmHeapHeader)
-#define REL_SHAPE(v) 1
 #define REL_HAS_STORE 0
 #endif
 #if VERIF_HKIND == 7 || VERIF_HKIND == 8 || VERIF_HKIND == 10 || VERIF_HKIND == 12 || VERIF_HKIND == 11
 #define REL_CONTAINER 1
+#define REL_P(v) ((REL_T *)(v).as.obj)
+#define O_KID(p) (O_STORE(p)[__verif_hk])
+#define O_HAS_KID(p) (__verif_hk < O_COUNT(p))
+#define O_KID_RC(p) (O_HAS_KID(p) && IS_RC(O_KID(p)))
 #else
 #define REL_CONTAINER 0
-#endif
-
-#define REL_L1(v) (__verif_h.lvl >= 1 && IS_RC(v))          /* header materialised */
-#define REL_L2(v) (__verif_h.lvl == 2 && IS_RC(v))          /* the object under proof */
-#define REL_RC0 ((__verif_h.lvl == 2) ? __verif_rc0 : __verif_krc0)      /* entry count of the argument's object */
-#define REL_SIZE ((__verif_h.lvl == 2) ? (size_t)(REL_OBJ_SIZE) : sizeof(VmHeapHeader))
-#if REL_CONTAINER
-#define REL_KID(v) (REL_STORE(v)[__verif_hk])
-#define REL_HAS_KID(v) (REL_L2(v) && __verif_hk < REL_COUNT(v))
-#define REL_KID_RC(v) (REL_HAS_KID(v) && IS_RC(REL_KID(v)))
 #endif
 
 /* loop invariants of release_*: until the loop reaches the ghost index, the child there is as it was on entry
@@ -135,72 +151,251 @@ __CPROVER_ensures(IS_RC(v) ==> HDR(v)->ref_count == __verif_rc0 + 1u);
 /* the heap descriptor: intern table valid for intern_capacity entries (vm_release of a string walks it) */
 #define HEAP_INTERN_MAX 1024u
 #define HEAP_OK(h) ((h)->intern_capacity >= 1 && (h)->intern_capacity <= HEAP_INTERN_MAX && (h)->intern_count <= (h)->intern_capacity)
-
-void vm_release(VmHeap *heap, NanoValue v)
-/* --- preconditions --- */
-__CPROVER_requires(VERIF_FRESH(heap, sizeof(VmHeap)) && HEAP_OK(heap))
+#define REL_PRE_HEAP \
+__CPROVER_requires(VERIF_FRESH(heap, sizeof(VmHeap)) && HEAP_OK(heap)) \
 __CPROVER_requires(VERIF_FRESH(heap->intern_table, (size_t)heap->intern_capacity * sizeof(VmString *)))
-__CPROVER_requires(__verif_h.lvl >= 0 && __verif_h.lvl <= 2)
-__CPROVER_requires(__verif_h.lvl < 1 || v.tag != TAG_HASHMAP)                 /* hash maps: not in this unit */
-__CPROVER_requires(__verif_h.lvl != 2 || !IS_RC_TAG(v.tag) || v.tag == VERIF_HKIND)      /* case split, call under proof only */
+#define REL_POST_HEAP \
+__CPROVER_ensures(heap->intern_table == __CPROVER_old(heap->intern_table) && heap->intern_capacity == __CPROVER_old(heap->intern_capacity)) \
+__CPROVER_ensures(heap->intern_count <= __CPROVER_old(heap->intern_count))
+
+/* ---- header-level clauses of vm_release: the SAME text in both views; `on` = "the argument's header is materialised" ---- */
 /* VAL_WF of the argument (the contract text of the step harnesses' stub, VM_RELEASE_REQUIRES): live header, type matches tag */
-__CPROVER_requires(__verif_h.lvl < 1 || !IS_RC_TAG(v.tag) || v.as.obj == NULL || VERIF_FRESH(v.as.obj, REL_SIZE))
-__CPROVER_requires(REL_L1(v) ==> (HDR(v)->obj_type == v.tag && HDR(v)->ref_count == REL_RC0))
+#define REL_PRE_HDR(on, sz, rc0) \
+__CPROVER_requires(!(on) || v.tag != TAG_HASHMAP)                 /* hash maps: not in this unit */ \
+__CPROVER_requires(!(on) || !IS_RC_TAG(v.tag) || v.as.obj == NULL || VERIF_FRESH(v.as.obj, sz)) \
+__CPROVER_requires(((on) && IS_RC(v)) ==> (HDR(v)->obj_type == v.tag && HDR(v)->ref_count == (rc0)))
+/* count >= 2: exactly -1; count == 0: no effect; the heap descriptor stays well-formed and is untouched unless an object dies */
+#define REL_POST_HDR(on, rc0) \
+__CPROVER_ensures(((on) && IS_RC(v) && (rc0) >= 2) ==> (HDR(v)->ref_count == (rc0) - 1u && HDR(v)->obj_type == v.tag)) \
+__CPROVER_ensures(((on) && IS_RC(v) && (rc0) == 0) ==> (HDR(v)->ref_count == 0 && HDR(v)->obj_type == v.tag)) \
+REL_POST_HEAP \
+__CPROVER_ensures(((on) && (!IS_RC(v) || (rc0) != 1)) ==> (heap->intern_count == __CPROVER_old(heap->intern_count) && \
+                   heap->stats.freed == __CPROVER_old(heap->stats.freed) && heap->stats.num_objects == __CPROVER_old(heap->stats.num_objects) && \
+                   heap->stats.allocated == __CPROVER_old(heap->stats.allocated)))
+
+#ifndef HEAP_VIEW_CHILD
+/* ---- vm_release, the call under proof (C14.heap.release.K) ---- */
+void vm_release(VmHeap *heap, NanoValue v)
+REL_PRE_HEAP
+__CPROVER_requires(!IS_RC_TAG(v.tag) || v.tag == VERIF_HKIND)                       /* case split over the kind */
+REL_PRE_HDR(1, REL_OBJ_SIZE, __verif_rc0)
+#if REL_CONTAINER
 /* the object under proof: its shape, its element store, the header of the child at the ghost index */
-__CPROVER_requires(REL_L2(v) ==> REL_SHAPE(v))
+__CPROVER_requires(IS_RC(v) ==> O_SHAPE(REL_P(v)))
 #if REL_HAS_STORE
-__CPROVER_requires(REL_L2(v) ==> ((REL_STORE_N(v) == 0 && REL_STORE(v) == NULL) ||
-                                  (REL_STORE_N(v) != 0 && VERIF_FRESH(REL_STORE(v), (size_t)REL_STORE_N(v) * sizeof(NanoValue)))))
+__CPROVER_requires(!IS_RC(v) || ((O_STORE_N(REL_P(v)) == 0 && O_STORE(REL_P(v)) == NULL) ||
+                                 (O_STORE_N(REL_P(v)) != 0 && VERIF_FRESH(O_STORE(REL_P(v)), (size_t)O_STORE_N(REL_P(v)) * sizeof(NanoValue)))))
+__CPROVER_requires(IS_RC(v) ==> (__verif_hstore == (void *)O_STORE(REL_P(v)) && __verif_hstn == O_STORE_N(REL_P(v))))
 #endif
-#if REL_HAS_STORE
-__CPROVER_requires(REL_L2(v) ==> (__verif_hstore == (void *)REL_STORE(v) && __verif_hstn == REL_STORE_N(v)))
+__CPROVER_requires((IS_RC(v) && O_HAS_KID(REL_P(v))) ==> O_KID(REL_P(v)).tag != TAG_HASHMAP)
+__CPROVER_requires(!(IS_RC(v) && O_KID_RC(REL_P(v))) || (VERIF_FRESH(O_KID(REL_P(v)).as.obj, sizeof(VmHeapHeader)) &&
+                                                          HDR(O_KID(REL_P(v)))->obj_type == O_KID(REL_P(v)).tag &&
+                                                          HDR(O_KID(REL_P(v)))->ref_count == __verif_krc0))
+__CPROVER_requires(IS_RC(v) ==> __verif_hkidrc == (O_KID_RC(REL_P(v)) ? 1 : 0))
 #endif
-#if REL_CONTAINER
-__CPROVER_requires(REL_HAS_KID(v) ==> REL_KID(v).tag != TAG_HASHMAP)
-__CPROVER_requires(REL_KID_RC(v) ==> (VERIF_FRESH(REL_KID(v).as.obj, sizeof(VmHeapHeader)) && HDR(REL_KID(v))->obj_type == REL_KID(v).tag))
-__CPROVER_requires(REL_L2(v) ==> __verif_hkidrc == (REL_KID_RC(v) ? 1 : 0))
-__CPROVER_requires(REL_KID_RC(v) ==> HDR(REL_KID(v))->ref_count == __verif_krc0)
-#endif
-/* --- frame --- */
 __CPROVER_assigns(__verif_h;
-                  REL_L1(v): HDR(v)->ref_count, __CPROVER_object_whole(heap), __CPROVER_object_whole(heap->intern_table)
+                  IS_RC(v): HDR(v)->ref_count, __CPROVER_object_whole(heap), __CPROVER_object_whole(heap->intern_table)
 #if REL_CONTAINER
-                  ; REL_KID_RC(v): HDR(REL_KID(v))->ref_count
+                  ; IS_RC(v) && O_KID_RC(REL_P(v)): HDR(O_KID(REL_P(v)))->ref_count
 #endif
                   )
-__CPROVER_frees(REL_L1(v): v.as.obj
+__CPROVER_frees(IS_RC(v): v.as.obj
 #if REL_HAS_STORE
-                ; REL_L2(v): REL_STORE(v)
-#endif
-#if REL_CONTAINER
-                ; REL_KID_RC(v): REL_KID(v).as.obj
+                ; IS_RC(v): O_STORE(REL_P(v))
 #endif
                 )
-/* --- postconditions: header level (proved at lvl 2 for every kind, used at lvl 1 as induction hypothesis) --- */
-__CPROVER_ensures(__verif_h.lvl == __CPROVER_old(__verif_h.lvl))                /* the level flag is the caller's again */
-__CPROVER_ensures((REL_L1(v) && REL_RC0 >= 2) ==> (HDR(v)->ref_count == REL_RC0 - 1u && HDR(v)->obj_type == v.tag))   /* exactly -1, not freed */
-__CPROVER_ensures((REL_L1(v) && REL_RC0 == 0) ==> HDR(v)->ref_count == 0)                                         /* no effect */
-__CPROVER_ensures((REL_L1(v) && REL_RC0 == 1) ==> __CPROVER_was_freed(v.as.obj))                                  /* freed */
-/* the heap descriptor stays well-formed; untouched unless an object dies */
-__CPROVER_ensures(heap->intern_table == __CPROVER_old(heap->intern_table) && heap->intern_capacity == __CPROVER_old(heap->intern_capacity))
-__CPROVER_ensures(heap->intern_count <= __CPROVER_old(heap->intern_count))
-__CPROVER_ensures((__verif_h.lvl >= 1 && (!IS_RC(v) || REL_RC0 != 1)) ==> (heap->intern_count == __CPROVER_old(heap->intern_count) &&
-                   heap->stats.freed == __CPROVER_old(heap->stats.freed) && heap->stats.num_objects == __CPROVER_old(heap->stats.num_objects) &&
-                   heap->stats.allocated == __CPROVER_old(heap->stats.allocated)))
-/* ghost bookkeeping: a release delivered to the child of interest is counted */
-__CPROVER_ensures(__CPROVER_old(__verif_h.lvl) == 1 ==> __verif_h.kid_calls == __CPROVER_old(__verif_h.kid_calls) + (IS_RC(v) ? 1u : 0u))
-__CPROVER_ensures(__CPROVER_old(__verif_h.lvl) == 0 ==> __verif_h.kid_calls == __CPROVER_old(__verif_h.kid_calls))
-/* --- postconditions: the object under proof --- */
-#if REL_CONTAINER
-/* count == 1: every contained value is released once: the value at the (arbitrary) ghost index got exactly one release */
-__CPROVER_ensures((__CPROVER_old(__verif_h.lvl) == 2 && IS_RC(v)) ==>
-                  __verif_h.kid_calls == __CPROVER_old(__verif_h.kid_calls) + ((__verif_rc0 == 1 && __verif_hkidrc) ? 1u : 0u))
+REL_POST_HDR(1, __verif_rc0)
+/* count == 1: the object is freed - directly (string), or by ONE run of the kind's release_* helper on it, whose contract
+ * (C14.heap.helper.K) says that the object and its element store are deallocated; otherwise nothing is freed */
+#if !REL_CONTAINER
+__CPROVER_ensures(!(IS_RC(v) && __verif_rc0 == 1) || __CPROVER_was_freed(v.as.obj))
+__CPROVER_ensures(__verif_h.helper_calls == __CPROVER_old(__verif_h.helper_calls))
 #else
-__CPROVER_ensures(__CPROVER_old(__verif_h.lvl) == 2 ==> __verif_h.kid_calls == __CPROVER_old(__verif_h.kid_calls))
+__CPROVER_ensures(__verif_h.helper_calls == __CPROVER_old(__verif_h.helper_calls) + ((IS_RC(v) && __verif_rc0 == 1) ? 1u : 0u))
 #endif
+__CPROVER_ensures(!(IS_RC(v) && __verif_rc0 != 1) || !__CPROVER_was_freed(v.as.obj))
 #if REL_HAS_STORE
-__CPROVER_ensures((REL_L2(v) && __verif_rc0 == 1 && __verif_hstn != 0) ==> __CPROVER_was_freed(__verif_hstore))
+__CPROVER_ensures(!(IS_RC(v) && __verif_rc0 != 1 && __verif_hstn != 0) || !__CPROVER_was_freed(__verif_hstore))
+#endif
+/* count == 1: every contained value is released once: the value at the (arbitrary) ghost index got exactly one release */
+#if REL_CONTAINER
+__CPROVER_ensures(IS_RC(v) ==> __verif_h.kid_calls == __CPROVER_old(__verif_h.kid_calls) + ((__verif_rc0 == 1 && __verif_hkidrc) ? 1u : 0u))
+__CPROVER_ensures(!IS_RC(v) ==> __verif_h.kid_calls == __CPROVER_old(__verif_h.kid_calls))
+#else
+__CPROVER_ensures(__verif_h.kid_calls == __CPROVER_old(__verif_h.kid_calls))
 #endif
 ;
+#else
+/* ---- vm_release, child view (replaces the recursive calls inside release_K, C14.heap.helper.K): the argument is the
+ * child at the ghost index when the level flag is 1 (header materialised), any other child when it is 0 (nothing known,
+ * nothing claimed, nothing assigned).  The clauses are the header-level clauses above, with the entry count bound to
+ * __verif_krc0.  The deallocation of the child at count 1 is NOT modelled (a loop contract has no frees clause in CBMC
+ * 6.11): its count is left unspecified in that case and the caller never looks at the child again. ---- */
+#define REL_ON (__verif_h.lvl == 1)
+void vm_release(VmHeap *heap, NanoValue v)
+REL_PRE_HEAP
+__CPROVER_requires(__verif_h.lvl == 0 || __verif_h.lvl == 1)
+REL_PRE_HDR(REL_ON, sizeof(VmHeapHeader), __verif_krc0)
+__CPROVER_assigns(__verif_h;
+                  REL_ON && IS_RC(v): HDR(v)->ref_count, __CPROVER_object_whole(heap), __CPROVER_object_whole(heap->intern_table))
+__CPROVER_ensures(__verif_h.lvl == __CPROVER_old(__verif_h.lvl))
+REL_POST_HDR(REL_ON, __verif_krc0)
+/* ghost bookkeeping: a release delivered to the child of interest is counted */
+__CPROVER_ensures(__verif_h.lvl == 1 ==> __verif_h.kid_calls == __CPROVER_old(__verif_h.kid_calls) + (IS_RC(v) ? 1u : 0u))
+__CPROVER_ensures(__verif_h.lvl == 0 ==> __verif_h.kid_calls == __CPROVER_old(__verif_h.kid_calls))
+;
+#endif
+
+#if REL_CONTAINER
+/* ---- release_K(heap, p): called by vm_release when the count of p reached 0: releases every contained value once,
+ * frees the element store and the object ---- */
+static void REL_FN(VmHeap *heap, REL_T *REL_PN)
+REL_PRE_HEAP
+__CPROVER_requires(VERIF_FRESH(REL_PN, REL_OBJ_SIZE) && O_SHAPE(REL_PN))
+#if REL_HAS_STORE
+__CPROVER_requires((O_STORE_N(REL_PN) == 0 && O_STORE(REL_PN) == NULL) || (O_STORE_N(REL_PN) != 0 && VERIF_FRESH(O_STORE(REL_PN), (size_t)O_STORE_N(REL_PN) * sizeof(NanoValue))))
+__CPROVER_requires(__verif_hstore == (void *)O_STORE(REL_PN) && __verif_hstn == O_STORE_N(REL_PN))
+#endif
+__CPROVER_requires(O_HAS_KID(REL_PN) ==> O_KID(REL_PN).tag != TAG_HASHMAP)
+__CPROVER_requires(!O_KID_RC(REL_PN) || (VERIF_FRESH(O_KID(REL_PN).as.obj, sizeof(VmHeapHeader)) && HDR(O_KID(REL_PN))->obj_type == O_KID(REL_PN).tag &&
+                                    HDR(O_KID(REL_PN))->ref_count == __verif_krc0))
+__CPROVER_requires(__verif_hkidrc == (O_KID_RC(REL_PN) ? 1 : 0))
+__CPROVER_assigns(__verif_h, __CPROVER_object_whole(heap), __CPROVER_object_whole(heap->intern_table); O_KID_RC(REL_PN): HDR(O_KID(REL_PN))->ref_count)
+__CPROVER_frees(REL_PN
+#if REL_HAS_STORE
+                , O_STORE(REL_PN)
+#endif
+                )
+#ifdef HEAP_VIEW_CHILD
+/* enforced (C14.heap.helper.K): the object and its element store are deallocated */
+__CPROVER_ensures(__CPROVER_was_freed(REL_PN))
+#if REL_HAS_STORE
+__CPROVER_ensures(__verif_hstn == 0 || __CPROVER_was_freed(__verif_hstore))
+#endif
+#else
+/* assumed at the call site in vm_release (C14.heap.release.K): the frees clause lets the object be deallocated (any
+ * later use by the caller is then a pointer failure), the two was_freed facts are left out: CBMC 6.11 rejects an ASSUMED
+ * __CPROVER_was_freed here ("ptr to always exist in the contract's frees clause" although it does); that the helper ran
+ * is recorded in the ghost counter instead */
+__CPROVER_ensures(__verif_h.helper_calls == __CPROVER_old(__verif_h.helper_calls) + 1u)
+#endif
+REL_POST_HEAP
+__CPROVER_ensures(__verif_h.kid_calls == __CPROVER_old(__verif_h.kid_calls) + (__verif_hkidrc ? 1u : 0u));
+#endif
+
+/* =====================================================================================================
+ * containers: constructors and accessors (C14.heap.arr.*, C14.heap.new.*)
+ * =====================================================================================================
+ * The contracts say what the CODE does with contents and counts ("get/set/remove do not touch counts, pop hands the
+ * element over without touching its count, push retains"); which of these are ownership defects in a caller is decided by
+ * the opcode obligations C14.step.*.  Sequence view with the ghost index __verif_hk (never assigned: for all k). */
+#define VAL_SAME(x, y) ((x).tag == (y).tag && (x).as.i64 == (y).as.i64)
+#define ARR_SHAPE(a) ((a)->header.obj_type == TAG_ARRAY && (a)->capacity >= 1 && (a)->capacity <= HEAP_MAX_ELEMS && (a)->length <= (a)->capacity)
+#define ARR_WF_PRE(a) (VERIF_FRESH(a, sizeof(VmArray)) && ARR_SHAPE(a) && VERIF_FRESH((a)->elements, (size_t)(a)->capacity * sizeof(NanoValue)))
+#define ARR_WF_POST(a) (ARR_SHAPE(a) && __CPROVER_rw_ok((a)->elements, (size_t)(a)->capacity * sizeof(NanoValue)))
+#define ARR_SAME_HDR(a) ((a)->header.ref_count == __CPROVER_old((a)->header.ref_count) && (a)->capacity == __CPROVER_old((a)->capacity) && \
+                         (a)->elements == __CPROVER_old((a)->elements) && (a)->elem_type == __CPROVER_old((a)->elem_type))
+/* __CPROVER_old() snapshots are pointer-checked: the index is clamped to slot 0 (capacity >= 1); uses are guarded */
+#define HK_CL(a) (__verif_hk < (a)->length ? __verif_hk : 0u)
+#define HK1_CL(a) (__verif_hk + 1u < (a)->length ? __verif_hk + 1u : 0u)
+#define ARR_OLD_SAME(a, e) ((e).tag == __CPROVER_old((a)->elements[HK_CL(a)].tag) && (e).as.i64 == __CPROVER_old((a)->elements[HK_CL(a)].as.i64))
+#define ARR_OLD1_SAME(a, e) ((e).tag == __CPROVER_old((a)->elements[HK1_CL(a)].tag) && (e).as.i64 == __CPROVER_old((a)->elements[HK1_CL(a)].as.i64))
+
+NanoValue vm_array_get(VmArray *a, uint32_t index)
+__CPROVER_requires(ARR_WF_PRE(a))
+__CPROVER_assigns()                                                       /* no count is touched */
+__CPROVER_ensures(index < a->length ==> VAL_SAME(__CPROVER_return_value, a->elements[index]))
+__CPROVER_ensures(index >= a->length ==> __CPROVER_return_value.tag == TAG_VOID);
+
+void vm_array_set(VmArray *a, uint32_t index, NanoValue v)
+__CPROVER_requires(ARR_WF_PRE(a))
+__CPROVER_assigns(index < a->length: a->elements[index])                  /* the old element's count and v's count are not touched */
+__CPROVER_ensures(index < a->length ==> VAL_SAME(a->elements[index], v))
+__CPROVER_ensures((__verif_hk < a->length && __verif_hk != index) ==> ARR_OLD_SAME(a, a->elements[__verif_hk]))
+__CPROVER_ensures(ARR_SAME_HDR(a) && a->length == __CPROVER_old(a->length));
+
+NanoValue vm_array_pop(VmArray *a)
+__CPROVER_requires(ARR_WF_PRE(a))
+__CPROVER_assigns(a->length)                                              /* ownership moves to the caller: no count is touched */
+__CPROVER_ensures(__CPROVER_old(a->length) == 0 ==> (a->length == 0 && __CPROVER_return_value.tag == TAG_VOID))
+__CPROVER_ensures(__CPROVER_old(a->length) > 0 ==> (a->length == __CPROVER_old(a->length) - 1 && VAL_SAME(__CPROVER_return_value, a->elements[a->length])))
+__CPROVER_ensures(ARR_SAME_HDR(a));
+
+/* remove: sequence' = sequence without element `index`; the removed element's count is NOT touched (the reference is
+ * simply overwritten: C14.step.ARR_REMOVE names the leak) */
+void vm_array_remove(VmArray *a, uint32_t index)
+__CPROVER_requires(ARR_WF_PRE(a))
+__CPROVER_assigns(a->length, __CPROVER_object_whole(a->elements))
+__CPROVER_ensures(ARR_SAME_HDR(a))
+__CPROVER_ensures(index >= __CPROVER_old(a->length) ==> (a->length == __CPROVER_old(a->length) && (__verif_hk < a->length ==> ARR_OLD_SAME(a, a->elements[__verif_hk]))))
+__CPROVER_ensures(index < __CPROVER_old(a->length) ==> a->length == __CPROVER_old(a->length) - 1)
+__CPROVER_ensures((index < __CPROVER_old(a->length) && __verif_hk < index) ==> ARR_OLD_SAME(a, a->elements[__verif_hk]))
+__CPROVER_ensures((index < __CPROVER_old(a->length) && __verif_hk >= index && __verif_hk < a->length) ==> ARR_OLD1_SAME(a, a->elements[__verif_hk]));
+
+/* push: sequence' = sequence ++ [v]; the store may move (realloc); v is RETAINED (+1) */
+void vm_array_push(VmArray *a, NanoValue v)
+__CPROVER_requires(ARR_WF_PRE(a))
+__CPROVER_requires(a->length < a->capacity || a->capacity <= HEAP_MAX_ELEMS / 2)
+__CPROVER_requires(!IS_RC_TAG(v.tag) || v.as.obj == NULL || VERIF_FRESH(v.as.obj, sizeof(VmHeapHeader)))     /* v is not the array itself */
+__CPROVER_requires(IS_RC(v) ==> HDR(v)->ref_count == __verif_rc0)
+__CPROVER_assigns(__CPROVER_object_whole(a), __CPROVER_object_whole(a->elements); IS_RC(v): HDR(v)->ref_count)
+__CPROVER_frees(a->elements)
+__CPROVER_ensures(ARR_WF_POST(a) && a->length == __CPROVER_old(a->length) + 1)
+__CPROVER_ensures(a->header.ref_count == __CPROVER_old(a->header.ref_count) && a->elem_type == __CPROVER_old(a->elem_type))
+__CPROVER_ensures(__CPROVER_old(a->length) < __CPROVER_old(a->capacity)
+                  ? (a->capacity == __CPROVER_old(a->capacity) && a->elements == __CPROVER_old(a->elements))
+                  : a->capacity == 2 * __CPROVER_old(a->capacity))
+__CPROVER_ensures(VAL_SAME(a->elements[a->length - 1], v))
+__CPROVER_ensures(__verif_hk < a->length - 1 ==> ARR_OLD_SAME(a, a->elements[__verif_hk]))
+__CPROVER_ensures(IS_RC(v) ==> HDR(v)->ref_count == __verif_rc0 + 1u);
+
+/* constructors: a fresh object with count 1 and the right type tag, all slots zero (TAG_VOID) */
+#define HEAP_STATS_NEW(heap) (heap->stats.num_objects == __CPROVER_old(heap->stats.num_objects) + 1 && heap->stats.freed == __CPROVER_old(heap->stats.freed))
+VmArray *vm_array_new(VmHeap *heap, uint8_t elem_type, uint32_t initial_capacity)
+__CPROVER_requires(VERIF_FRESH(heap, sizeof(VmHeap)) && initial_capacity <= HEAP_MAX_ELEMS)
+__CPROVER_assigns(heap->stats)
+__CPROVER_ensures(__CPROVER_is_fresh(__CPROVER_return_value, sizeof(VmArray)))
+__CPROVER_ensures(__CPROVER_return_value->header.ref_count == 1 && ARR_SHAPE(__CPROVER_return_value) && __CPROVER_return_value->length == 0 &&
+                  __CPROVER_return_value->elem_type == elem_type && __CPROVER_return_value->capacity == (initial_capacity < 8 ? 8 : initial_capacity))
+__CPROVER_ensures(__CPROVER_is_fresh(__CPROVER_return_value->elements, (size_t)__CPROVER_return_value->capacity * sizeof(NanoValue)))
+__CPROVER_ensures(__verif_hk < __CPROVER_return_value->capacity ==> (__CPROVER_return_value->elements[__verif_hk].tag == TAG_VOID && __CPROVER_return_value->elements[__verif_hk].as.i64 == 0))
+__CPROVER_ensures(HEAP_STATS_NEW(heap));
+
+VmStruct *vm_struct_new(VmHeap *heap, uint32_t def_idx, uint32_t field_count)
+__CPROVER_requires(VERIF_FRESH(heap, sizeof(VmHeap)) && field_count <= HEAP_MAX_ELEMS)
+__CPROVER_assigns(heap->stats)
+__CPROVER_ensures(__CPROVER_is_fresh(__CPROVER_return_value, sizeof(VmStruct)))
+__CPROVER_ensures(__CPROVER_return_value->header.ref_count == 1 && __CPROVER_return_value->header.obj_type == TAG_STRUCT &&
+                  __CPROVER_return_value->def_idx == def_idx && __CPROVER_return_value->field_count == field_count && __CPROVER_return_value->field_names == NULL)
+__CPROVER_ensures(field_count == 0 || __CPROVER_rw_ok(__CPROVER_return_value->fields, (size_t)field_count * sizeof(NanoValue)))
+__CPROVER_ensures(__verif_hk < field_count ==> (__CPROVER_return_value->fields[__verif_hk].tag == TAG_VOID && __CPROVER_return_value->fields[__verif_hk].as.i64 == 0))
+__CPROVER_ensures(HEAP_STATS_NEW(heap));
+
+VmUnion *vm_union_new(VmHeap *heap, uint32_t def_idx, uint16_t variant, uint16_t field_count)
+__CPROVER_requires(VERIF_FRESH(heap, sizeof(VmHeap)))
+__CPROVER_assigns(heap->stats)
+__CPROVER_ensures(__CPROVER_is_fresh(__CPROVER_return_value, sizeof(VmUnion)))
+__CPROVER_ensures(__CPROVER_return_value->header.ref_count == 1 && __CPROVER_return_value->header.obj_type == TAG_UNION &&
+                  __CPROVER_return_value->def_idx == def_idx && __CPROVER_return_value->variant == variant && __CPROVER_return_value->field_count == field_count)
+__CPROVER_ensures(field_count == 0 || __CPROVER_rw_ok(__CPROVER_return_value->fields, (size_t)field_count * sizeof(NanoValue)))
+__CPROVER_ensures(__verif_hk < field_count ==> (__CPROVER_return_value->fields[__verif_hk].tag == TAG_VOID && __CPROVER_return_value->fields[__verif_hk].as.i64 == 0))
+__CPROVER_ensures(HEAP_STATS_NEW(heap));
+
+VmTuple *vm_tuple_new(VmHeap *heap, uint32_t count)
+__CPROVER_requires(VERIF_FRESH(heap, sizeof(VmHeap)) && count <= HEAP_MAX_ELEMS)
+__CPROVER_assigns(heap->stats)
+__CPROVER_ensures(__CPROVER_is_fresh(__CPROVER_return_value, sizeof(VmTuple) + (size_t)count * sizeof(NanoValue)))
+__CPROVER_ensures(__CPROVER_return_value->header.ref_count == 1 && __CPROVER_return_value->header.obj_type == TAG_TUPLE && __CPROVER_return_value->count == count)
+__CPROVER_ensures(__verif_hk < count ==> (__CPROVER_return_value->elements[__verif_hk].tag == TAG_VOID && __CPROVER_return_value->elements[__verif_hk].as.i64 == 0))
+__CPROVER_ensures(HEAP_STATS_NEW(heap));
+
+VmClosure *vm_closure_new(VmHeap *heap, uint32_t fn_idx, uint16_t capture_count)
+__CPROVER_requires(VERIF_FRESH(heap, sizeof(VmHeap)))
+__CPROVER_assigns(heap->stats)
+__CPROVER_ensures(__CPROVER_is_fresh(__CPROVER_return_value, sizeof(VmClosure) + (size_t)capture_count * sizeof(NanoValue)))
+__CPROVER_ensures(__CPROVER_return_value->header.ref_count == 1 && __CPROVER_return_value->header.obj_type == TAG_FUNCTION &&
+                  __CPROVER_return_value->fn_idx == fn_idx && __CPROVER_return_value->capture_count == capture_count)
+__CPROVER_ensures(__verif_hk < capture_count ==> (__CPROVER_return_value->captures[__verif_hk].tag == TAG_VOID && __CPROVER_return_value->captures[__verif_hk].as.i64 == 0))
+__CPROVER_ensures(HEAP_STATS_NEW(heap));
 
 #endif
